@@ -1,4 +1,5 @@
 import SJ.Proofs.LexFast
+import SJ.Proofs.IeeeOps
 /-!
 # C07 layer (vi): composition — `deFloatRoundtrip` is the correctly rounded value
 
@@ -7,8 +8,8 @@ explicit hypothesis of `c07_correct_partial` (see `Props/C07.lean`). Everything 
 bhcomp with its truncation, the `de.rs` digit split, sign, underflow, overflow — is proved here.
 -/
 namespace SJ.Proofs.LexCorrect
-open SJ SJ.Gen SJ.Model.Lexical SJ.Model.Num SJ.Spec.Ieee32
-open SJ.Proofs.LexIeee SJ.Proofs.LexRound SJ.Proofs.LexBh SJ.Proofs.LexFast SJ.Proofs.LexSplit SJ.Proofs.NumInt
+open SJ SJ.Gen SJ.Model.Lexical SJ.Model.Num SJ.Spec.Ieee
+open SJ.Proofs.Ieee SJ.Proofs.LexRound SJ.Proofs.LexBh SJ.Proofs.LexFast SJ.Proofs.LexSplit SJ.Proofs.NumInt
 
 /-- **the moderate-path layer, for one call.** `moderate_path(mant, mantExp, truncated)` is used for the decimal
     `N · 10^E` (`N = mant`, `E = mantExp` when nothing was cut; otherwise `mant` is `N` cut to its first digits). -/
@@ -350,42 +351,75 @@ theorem tiny_underflows {c : FC} {F : Fmt} (h : FCok c F) (N L : Nat) (E : Int) 
     _ ≤ 10 ^ L * 10 ^ 401 * 10 ^ j := Nat.le_mul_of_pos_right _ (Nat.pos_of_ne_zero (by simp))
     _ = 10 ^ (-E).toNat := by rw [hj, Nat.pow_add, Nat.pow_add]; ring
 
-/-! ## binary64: both sides as "signed pattern or out of range" -/
+/-! ## both sides as "signed pattern or out of range" -/
 
-theorem xor_eq_or_of_disjoint (a b : Nat) (h : a &&& b = 0) : a ^^^ b = a ||| b := by
-  apply Nat.eq_of_testBit_eq
-  intro i
-  have := congrArg (fun x => x.testBit i) h
-  simp only [Nat.testBit_and, Nat.zero_testBit] at this
-  rw [Nat.testBit_xor, Nat.testBit_or]
-  cases ha : a.testBit i <;> cases hb : b.testBit i <;> simp_all
+theorem roundBits_eq (F : Fmt) (neg : Bool) (n d : Nat) :
+    roundBits F neg n d =
+      if roundMag F (n * 2 ^ F.qexp) d < F.infBits then
+        some (if neg then F.signBit + roundMag F (n * 2 ^ F.qexp) d else roundMag F (n * 2 ^ F.qexp) d)
+      else none := rfl
+
+/-- what `Model.Num.exact` says, in terms of the rounding `R` of the decimal (any format) -/
+theorem exact_cases {c : FC} {F : Fmt} (h : FCok c F) (p : Parts) (hN : litN p ≠ 0) :
+    (exact p = .huge ∧ F.infBits ≤ roundMag F (dNum F (litN p) (litE p)) (dDen (litE p))) ∨
+    (exact p = .tiny ∧ roundMag F (dNum F (litN p) (litE p)) (dDen (litE p)) = 0) ∨
+    (∃ n d, exact p = .rat n d ∧ 0 < d ∧
+      roundMag F (n * 2 ^ F.qexp) d = roundMag F (dNum F (litN p) (litE p)) (dDen (litE p))) := by
+  have hNpos : 0 < litN p := Nat.pos_of_ne_zero hN
+  obtain ⟨db1, db2⟩ := digits_bounds (litN p) hNpos
+  have hLpos : 1 ≤ (toString (litN p)).length := by
+    have e : toString (litN p) = (litN p).repr := rfl
+    rw [e]; exact @Nat.length_repr_pos (litN p)
+  rw [exact_eq]
+  have hb : (litN p == 0) = false := by simpa using hN
+  simp only [hb, Bool.false_eq_true, if_false]
+  by_cases hh : litE p + ((toString (litN p)).length : Int) > 400
+  · left
+    rw [if_pos hh]
+    exact ⟨rfl, huge_overflows h (litN p) _ (litE p) db1 hLpos hh⟩
+  · rw [if_neg hh]
+    by_cases ht : litE p + ((toString (litN p)).length : Int) < -400
+    · right; left
+      rw [if_pos ht]
+      exact ⟨rfl, tiny_underflows h (litN p) _ (litE p) db2 ht⟩
+    · right; right
+      rw [if_neg ht]
+      by_cases hE : litE p ≥ 0
+      · rw [if_pos hE]
+        refine ⟨_, _, rfl, Nat.one_pos, ?_⟩
+        have e2 : dDen (litE p) = 1 := by
+          unfold dDen
+          have : (-(litE p)).toNat = 0 := by omega
+          rw [this]; rfl
+        rw [e2]; rfl
+      · rw [if_neg hE]
+        refine ⟨_, _, rfl, Nat.pos_of_ne_zero (by simp), ?_⟩
+        have e1 : dNum F (litN p) (litE p) = litN p * 2 ^ F.qexp := by
+          unfold dNum
+          have : (litE p).toNat = 0 := by omega
+          rw [this, Nat.pow_zero, Nat.mul_one]
+        rw [e1]; rfl
+
+theorem roundBits_of (F : Fmt) (neg : Bool) (n d R : Nat) (hr : roundMag F (n * 2 ^ F.qexp) d = R) :
+    roundBits F neg n d = if R < F.infBits then some (if neg then F.signBit + R else R) else none := by
+  rw [roundBits_eq, hr]
+
+theorem infBits64_lt : b64.infBits < 2 ^ 63 := by decide
 
 /-- flipping the sign bit of a positive pattern -/
 theorem neg_ofNat (R : Nat) (hR : R < 2 ^ 63) :
-    SJ.Spec.Ieee.F64.neg (UInt64.ofNat R) = UInt64.ofNat (b64.signBit + R) := by
-  have hs := SJ.Proofs.LexBridge.sign_or true R hR
-  simp only [if_true] at hs
-  rw [← hs]
-  unfold SJ.Spec.Ieee.F64.neg SJ.Spec.Ieee.signBit
-  simp only [if_true]
+    F64.neg (UInt64.ofNat R) = UInt64.ofNat (b64.signBit + R) := by
+  have hs : b64.signBit = 2 ^ 63 := SJ.Proofs.Ieee.b64_signBit
   apply UInt64.toNat_inj.1
-  rw [UInt64.toNat_xor, UInt64.toNat_or]
+  unfold F64.neg
+  rw [UInt64.toNat_add, UInt64.toNat_ofNat', UInt64.toNat_ofNat', hs]
   have h1 : (0x8000000000000000 : UInt64).toNat = 2 ^ 63 := by decide
-  have h2 : (UInt64.ofNat R).toNat = R := by rw [UInt64.toNat_ofNat']; exact Nat.mod_eq_of_lt (by omega)
-  rw [h1, h2, Nat.or_comm]
-  apply xor_eq_or_of_disjoint
-  apply Nat.eq_of_testBit_eq
-  intro i
-  rw [Nat.testBit_and, Nat.testBit_two_pow, Nat.zero_testBit]
-  by_cases hi : 63 = i
-  · subst hi; rw [Nat.testBit_lt_two_pow hR]; simp
-  · simp [hi]
+  rw [h1]
+  omega
 
 /-- the common normal form of both sides for an `f64` target -/
 def finish64 (neg : Bool) (R : Nat) : NRes :=
   if R < b64.infBits then .f64 (UInt64.ofNat (if neg then b64.signBit + R else R)) else .outOfRange
-
-theorem infBits64_lt : b64.infBits < 2 ^ 63 := by decide
 
 theorem finishFloat64 (positive : Bool) (R : Nat) :
     finishFloat false positive (clampInf b64 R) = finish64 (!positive) R := by
@@ -406,70 +440,29 @@ theorem finishFloat64 (positive : Bool) (R : Nat) :
     rw [hc, if_neg hR]
     simp
 
-theorem signBit_eq (neg : Bool) : SJ.Spec.Ieee.signBit neg = UInt64.ofNat (if neg then b64.signBit + 0 else 0) := by
+theorem zero_eq (neg : Bool) : F64.zero neg = UInt64.ofNat (if neg then b64.signBit + 0 else 0) := by
   cases neg <;> decide
-
-theorem roundBits_cases (neg : Bool) (n d : Nat) :
-    (roundBits b64 neg n d = none ∧ finish64 neg (roundMag b64 (n * 2 ^ b64.qexp) d) = .outOfRange) ∨
-    (∃ x, roundBits b64 neg n d = some x ∧ finish64 neg (roundMag b64 (n * 2 ^ b64.qexp) d) = .f64 (UInt64.ofNat x)) := by
-  unfold roundBits finish64
-  generalize roundMag b64 (n * 2 ^ b64.qexp) d = r
-  by_cases hr : r < b64.infBits
-  · right; exact ⟨(if neg = true then b64.signBit + r else r), by simp only [hr, if_true], by simp only [hr, if_true]⟩
-  · left; exact ⟨by simp only [hr, if_false], by simp only [hr, if_false]⟩
 
 /-- `convertRoundtrip.conv` in the same normal form -/
 theorem conv64_eq (p : Parts) (hN : litN p ≠ 0) :
     convertRoundtrip.conv p = finish64 p.neg (roundMag b64 (dNum b64 (litN p) (litE p)) (dDen (litE p))) := by
-  have h := fcok64
-  have hNpos : 0 < litN p := Nat.pos_of_ne_zero hN
-  obtain ⟨db1, db2⟩ := digits_bounds (litN p) hNpos
-  have hLpos : 1 ≤ (toString (litN p)).length := by
-    have e : toString (litN p) = (litN p).repr := rfl
-    rw [e]; exact @Nat.length_repr_pos (litN p)
-  unfold convertRoundtrip.conv
-  rw [exact_eq]
-  have hb : (litN p == 0) = false := by simpa using hN
-  simp only [hb, Bool.false_eq_true, if_false]
-  by_cases hh : litE p + ((toString (litN p)).length : Int) > 400
-  · rw [if_pos hh]
-    have := huge_overflows h (litN p) _ (litE p) db1 hLpos hh
+  unfold convertRoundtrip.conv finish64
+  rcases exact_cases fcok64 p hN with ⟨hx, hr⟩ | ⟨hx, hr⟩ | ⟨n, d, hx, hd, hr⟩
+  · rw [hx]
     simp only []
-    unfold finish64
     rw [if_neg (by omega)]
-  · rw [if_neg hh]
-    by_cases ht : litE p + ((toString (litN p)).length : Int) < -400
-    · rw [if_pos ht]
-      have := tiny_underflows h (litN p) _ (litE p) db2 ht
-      simp only []
-      unfold finish64
-      rw [this, if_pos (by have := infBits64_lt; unfold Fmt.infBits b64; norm_num), signBit_eq]
-    · rw [if_neg ht]
-      by_cases hE : litE p ≥ 0
-      · rw [if_pos hE]
-        simp only []
-        rw [SJ.Proofs.LexBridge.roundNE64_bridge _ _ _ Nat.one_pos]
-        have e2 : dDen (litE p) = 1 := by
-          unfold dDen
-          have : (-(litE p)).toNat = 0 := by omega
-          rw [this]; rfl
-        have e1 : dNum b64 (litN p) (litE p) = litN p * 10 ^ (litE p).toNat * 2 ^ b64.qexp := rfl
-        rw [e1, e2]
-        rcases roundBits_cases p.neg (litN p * 10 ^ (litE p).toNat) 1 with ⟨h1, h2⟩ | ⟨x, h1, h2⟩
-        · rw [h1, h2]; rfl
-        · rw [h1, h2]; rfl
-      · rw [if_neg hE]
-        simp only []
-        rw [SJ.Proofs.LexBridge.roundNE64_bridge _ _ _ (Nat.pos_of_ne_zero (by simp))]
-        have e1 : dNum b64 (litN p) (litE p) = litN p * 2 ^ b64.qexp := by
-          unfold dNum
-          have : (litE p).toNat = 0 := by omega
-          rw [this, Nat.pow_zero, Nat.mul_one]
-        have e2 : dDen (litE p) = 10 ^ (-(litE p)).toNat := rfl
-        rw [e1, e2]
-        rcases roundBits_cases p.neg (litN p) (10 ^ (-(litE p)).toNat) with ⟨h1, h2⟩ | ⟨x, h1, h2⟩
-        · rw [h1, h2]; rfl
-        · rw [h1, h2]; rfl
+  · rw [hx]
+    simp only []
+    rw [hr, if_pos (by have := infBits64_lt; unfold Fmt.infBits b64; norm_num), zero_eq]
+  · rw [hx]
+    simp only []
+    have hd0 : (d == 0) = false := by simp; omega
+    rw [hd0]
+    simp only [Bool.false_eq_true, if_false]
+    rw [SJ.Proofs.LexBridge.roundNE64_bridge, roundBits_of b64 p.neg n d _ hr]
+    by_cases hlt : roundMag b64 (dNum b64 (litN p) (litE p)) (dDen (litE p)) < b64.infBits
+    · rw [if_pos hlt, if_pos hlt]; rfl
+    · rw [if_neg hlt, if_neg hlt]; rfl
 
 /-! ## assembling: `deFloatRoundtrip false = convertRoundtrip` -/
 
@@ -547,6 +540,14 @@ theorem u64_lt_80 (N : Nat) (h : N ≤ u64Max) : N < 2 ^ 80 ∧ N < 2 ^ 64 := by
   simp only [u64Max] at h
   constructor <;> omega
 
+theorem ofU64_zero : F64.ofU64 0 = 0 := by
+  apply UInt64.toNat_inj.1
+  have : F64.ofU64 0 = F64.roundOrInf false 0 1 := rfl
+  rw [this, roundOrInf64_toNat, Nat.zero_mul, roundMag_zero]
+  unfold clampInf
+  rw [if_pos (by have := infBits64_lt; unfold Fmt.infBits b64; norm_num)]
+  rfl
+
 /-- `-(significand as f64)` for a significand that fits `u64` is the rounding of `-significand` -/
 theorem neg_ofU64 (N : Nat) (hN : N ≤ u64Max) :
     NRes.f64 (SJ.Spec.Ieee.F64.neg (SJ.Spec.Ieee.F64.ofU64 N)) =
@@ -557,12 +558,12 @@ theorem neg_ofU64 (N : Nat) (hN : N ≤ u64Max) :
   have e1 : dNum b64 N 0 = N * 2 ^ b64.qexp := by unfold dNum; simp
   have e2 : dDen 0 = 1 := rfl
   rw [e1, e2]
-  have ht := roundOrInf64_toNat N 1 Nat.one_pos
+  have ht := roundOrInf64_toNat N 1
   unfold clampInf at ht
   rw [if_pos hfin] at ht
   have hof : SJ.Spec.Ieee.F64.ofU64 N = UInt64.ofNat (roundMag b64 (N * 2 ^ b64.qexp) 1) := by
     apply UInt64.toNat_inj.1
-    have : SJ.Spec.Ieee.F64.ofU64 N = (SJ.Spec.Ieee.roundNE64 false N 1).getD (SJ.Spec.Ieee.F64.inf false) := rfl
+    have : SJ.Spec.Ieee.F64.ofU64 N = F64.roundOrInf false N 1 := rfl
     rw [this, ht, UInt64.toNat_ofNat']
     exact (Nat.mod_eq_of_lt (by have := infBits64_lt; omega)).symm
   unfold finish64
@@ -598,8 +599,10 @@ theorem deFloat64_eq (p : Parts) (wf : WF p) (hlen : (p.int ++ p.frac.getD []).l
         simp only [hb, if_true]
         rw [if_neg (by omega)]
         unfold convertRoundtrip.conv
-        rw [exact_eq, hb, if_pos rfl, h0, hneg]
-        rfl
+        rw [exact_eq, hb, if_pos rfl, h0, hneg, ofU64_zero]
+        simp only []
+        have : F64.neg 0 = F64.zero true := by decide
+        rw [this]
       · have hb : (litN p == 0) = false := by simpa using h0
         simp only [hb, Bool.false_eq_true, if_false]
         by_cases h63 : litN p ≤ 2 ^ 63
@@ -668,7 +671,7 @@ theorem deFloat64_eq (p : Parts) (wf : WF p) (hlen : (p.int ++ p.frac.getD []).l
       rw [exact_eq, hb, if_pos rfl, h0]
       unfold dNum finish64
       simp only [Nat.zero_mul, roundMag_zero]
-      rw [if_pos (by have := infBits64_lt; unfold Fmt.infBits b64; norm_num), signBit_eq]
+      rw [if_pos (by have := infBits64_lt; unfold Fmt.infBits b64; norm_num), zero_eq]
     · rw [conv64_eq p h0]
   | truncated integer fraction e =>
     rw [hcall] at hpres hmod hz
@@ -731,27 +734,33 @@ theorem toF64_neg (R : Nat) (hR : R < b32.infBits) :
   have a1 : F32.absBits (UInt32.ofNat R) = R := by unfold F32.absBits; rw [t1]; exact Nat.mod_eq_of_lt (by omega)
   have a2 : F32.absBits (UInt32.ofNat (b32.signBit + R)) = R := by
     unfold F32.absBits; rw [t2]; omega
-  have n1 : F32.isNeg (UInt32.ofNat R) = false := by
-    unfold F32.isNeg; rw [t1, Nat.div_eq_of_lt (by omega)]; rfl
-  have n2 : F32.isNeg (UInt32.ofNat (b32.signBit + R)) = true := by
-    unfold F32.isNeg; rw [t2]
+  have n1 : F32.sign (UInt32.ofNat R) = false := by
+    unfold F32.sign; rw [t1, Nat.div_eq_of_lt (by omega)]; rfl
+  have n2 : F32.sign (UInt32.ofNat (b32.signBit + R)) = true := by
+    unfold F32.sign; rw [t2]
     have : (2 ^ 31 + R) / 2 ^ 31 = 1 := by omega
     rw [this]; rfl
-  have i1 : F32.isInf (UInt32.ofNat R) = false := by unfold F32.isInf; rw [a1]; simp; omega
-  have i2 : F32.isInf (UInt32.ofNat (b32.signBit + R)) = false := by unfold F32.isInf; rw [a2]; simp; omega
+  have hE : R / 2 ^ 23 % 2 ^ 8 ≠ 255 := by
+    have : R / 2 ^ 23 < 255 := by rw [Nat.div_lt_iff_lt_mul (by norm_num)]; omega
+    omega
+  have hE2 : (2 ^ 31 + R) / 2 ^ 23 % 2 ^ 8 ≠ 255 := by omega
+  have i1 : F32.isInf (UInt32.ofNat R) = false := by
+    unfold F32.isInf F32.expField; rw [t1]
+    have : (R / 2 ^ 23 % 2 ^ 8 == 255) = false := by simpa using hE
+    rw [this]; rfl
+  have i2 : F32.isInf (UInt32.ofNat (b32.signBit + R)) = false := by
+    unfold F32.isInf F32.expField; rw [t2]
+    have : ((2 ^ 31 + R) / 2 ^ 23 % 2 ^ 8 == 255) = false := by simpa using hE2
+    rw [this]; rfl
   unfold F32.toF64 F32.mag
   simp only [i1, i2, n1, n2, a1, a2, Bool.false_eq_true, if_false]
-  -- both roundings through the bridge
-  have hd : 0 < 2 ^ 149 := pow_pos' _
-  rw [SJ.Proofs.LexBridge.roundNE64_bridge false _ _ hd, SJ.Proofs.LexBridge.roundNE64_bridge true _ _ hd]
-  unfold roundBits
-  generalize roundMag b64 (magOfBits b32 R * 2 ^ b64.qexp) (2 ^ 149) = r
-  simp only []
-  by_cases hr : r < b64.infBits
-  · simp only [hr, if_true, Bool.false_eq_true, if_false, Option.map_some, Option.getD_some]
-    exact neg_ofNat r (by have := infBits64_lt; omega)
-  · simp only [hr, if_false, Option.map_none, Option.getD_none]
-    decide
+  unfold F64.roundOrInf
+  have hneg := SJ.Proofs.Ieee.roundNE64_neg false (magOfBits b32 R) (2 ^ 149)
+  simp only [Bool.not_false] at hneg
+  rw [← hneg]
+  cases roundNE64 false (magOfBits b32 R) (2 ^ 149) with
+  | none => decide
+  | some x => rfl
 
 theorem finishFloat32 (positive : Bool) (R : Nat) :
     finishFloat true positive (clampInf b32 R) = finish32 (!positive) R := by
@@ -772,56 +781,9 @@ theorem finishFloat32 (positive : Bool) (R : Nat) :
     rw [hc, if_neg hR]
     simp
 
-theorem roundBits_eq (F : Fmt) (neg : Bool) (n d : Nat) :
-    roundBits F neg n d =
-      if roundMag F (n * 2 ^ F.qexp) d < F.infBits then
-        some (if neg then F.signBit + roundMag F (n * 2 ^ F.qexp) d else roundMag F (n * 2 ^ F.qexp) d)
-      else none := rfl
-
-/-- what `Model.Num.exact` says, in terms of the rounding `R` of the decimal (any format) -/
-theorem exact_cases {c : FC} {F : Fmt} (h : FCok c F) (p : Parts) (hN : litN p ≠ 0) :
-    (exact p = .huge ∧ F.infBits ≤ roundMag F (dNum F (litN p) (litE p)) (dDen (litE p))) ∨
-    (exact p = .tiny ∧ roundMag F (dNum F (litN p) (litE p)) (dDen (litE p)) = 0) ∨
-    (∃ n d, exact p = .rat n d ∧ 0 < d ∧
-      roundMag F (n * 2 ^ F.qexp) d = roundMag F (dNum F (litN p) (litE p)) (dDen (litE p))) := by
-  have hNpos : 0 < litN p := Nat.pos_of_ne_zero hN
-  obtain ⟨db1, db2⟩ := digits_bounds (litN p) hNpos
-  have hLpos : 1 ≤ (toString (litN p)).length := by
-    have e : toString (litN p) = (litN p).repr := rfl
-    rw [e]; exact @Nat.length_repr_pos (litN p)
-  rw [exact_eq]
-  have hb : (litN p == 0) = false := by simpa using hN
-  simp only [hb, Bool.false_eq_true, if_false]
-  by_cases hh : litE p + ((toString (litN p)).length : Int) > 400
-  · left
-    rw [if_pos hh]
-    exact ⟨rfl, huge_overflows h (litN p) _ (litE p) db1 hLpos hh⟩
-  · rw [if_neg hh]
-    by_cases ht : litE p + ((toString (litN p)).length : Int) < -400
-    · right; left
-      rw [if_pos ht]
-      exact ⟨rfl, tiny_underflows h (litN p) _ (litE p) db2 ht⟩
-    · right; right
-      rw [if_neg ht]
-      by_cases hE : litE p ≥ 0
-      · rw [if_pos hE]
-        refine ⟨_, _, rfl, Nat.one_pos, ?_⟩
-        have e2 : dDen (litE p) = 1 := by
-          unfold dDen
-          have : (-(litE p)).toNat = 0 := by omega
-          rw [this]; rfl
-        rw [e2]; rfl
-      · rw [if_neg hE]
-        refine ⟨_, _, rfl, Nat.pos_of_ne_zero (by simp), ?_⟩
-        have e1 : dNum F (litN p) (litE p) = litN p * 2 ^ F.qexp := by
-          unfold dNum
-          have : (litE p).toNat = 0 := by omega
-          rw [this, Nat.pow_zero, Nat.mul_one]
-        rw [e1]; rfl
-
-theorem signBit64_toF64 (neg : Bool) :
-    SJ.Spec.Ieee.signBit neg = F32.toF64 (UInt32.ofNat (if neg then b32.signBit + 0 else 0)) := by
-  cases neg <;> decide
+theorem zero_toF64 (neg : Bool) :
+    F64.zero neg = F32.toF64 (UInt32.ofNat (if neg then b32.signBit + 0 else 0)) := by
+  cases neg <;> decide +kernel
 
 theorem roundNE32_eq (neg : Bool) (n d : Nat) : roundNE32 neg n d = (roundBits b32 neg n d).map UInt32.ofNat := rfl
 
